@@ -18,7 +18,7 @@ MC_INVS = ["W_FieldsIntact", "W_FinishComplete", "W_OffsetsStable", "W_CanFinish
 
 
 def gen_cfg(quick):
-    c = dict(Ks="{1, 3}" if quick else "{1, 2, 3, 4}", ExtraNs="{0, 2}" if quick else "{0, 1, 7}", BlockSizes="{1, 2}" if quick else "{1, 2, 3}",
+    c = dict(Ks="{1, 3}" if quick else "{1, 2, 3, 4}", ExtraNs="{0, 2}" if quick else "{0, 7}", BlockSizes="{1, 2}" if quick else "{1, 2, 3}",
              MaxSegs=2 if quick else 4)
     t = "SPECIFICATION Spec\nCONSTANTS\n" + "".join("  %s = %s\n" % kv for kv in c.items())
     t += "  LenSets <- %s\n" % ("LensQuick" if quick else "LensThorough")
@@ -28,7 +28,7 @@ def gen_cfg(quick):
 
 
 def mc_cfg(quick, weaken="none"):
-    c = dict(Fmts='{"mdmf", "sdmf"}', MaxCalls=6 if quick else 9, Weaken='"%s"' % weaken)
+    c = dict(Fmts='{"mdmf", "sdmf"}', MaxCalls=6 if quick else 8, Weaken='"%s"' % weaken)
     t = "SPECIFICATION Spec\nCONSTANTS\n" + "".join("  %s = %s\n" % kv for kv in c.items())
     t += "".join("INVARIANT %s\n" % i for i in MC_INVS) + "PROPERTY W_RefuseIsSilent\nCHECK_DEADLOCK FALSE\n"
     return t, c
@@ -71,7 +71,7 @@ def run(ctx):
             ctx.notes.append("rule without guard %s: TLC finds %s violated (properties are not vacuous)" % (wk, rr.violated))
 
     # ---------------- conformance ----------------
-    n = 120 if q else 3000
+    n = 120 if q else 2000
     traces = ctx.impl("harness/mutlayout_driver.py", ["--n", n, "--reads", 9 if q else 30], input_obj={"cases": cases}, timeout=6000)
     soft = [c for c in KNOWN_CLAUSES if any(k.get("status") == "known" and k["key"] == "trace:" + c for k in ctx.known)]
     kinds, evkinds = {}, {}
